@@ -102,6 +102,16 @@ impl E {
             E::Add(a, b) | E::Sub(a, b) | E::Mul(a, b) | E::Div(a, b) => 1 + a.size() + b.size(),
         }
     }
+    /// does the tree raise something to a power of magnitude >= 2 (magnitudes can then leave the range of f64 in the
+    /// unit numbat works in although the result is representable in base units)?
+    fn has_big_pow(&self) -> bool {
+        match self {
+            E::Num(_) | E::Unit(..) => false,
+            E::Pow(a, n, d) => (*n as f64 / *d as f64).abs() >= 2.0 || a.has_big_pow(),
+            E::Neg(a) => a.has_big_pow(),
+            E::Add(a, b) | E::Sub(a, b) | E::Mul(a, b) | E::Div(a, b) => a.has_big_pow() || b.has_big_pow(),
+        }
+    }
     /// independent oracle: (physical value in base units, absolute error bound estimate, dimension)
     fn oracle(&self, units: &Units) -> Option<(f64, f64, Dim)> {
         let eps = f64::EPSILON;
@@ -329,7 +339,11 @@ fn run_expr_inner(g: &Gen, out: &mut Out, e: &E, from_text: Option<&str>, emit: 
             }
             // the oracle's own conversion factor must be representable (`zSt^18` is 1e-450)
             let of = units.oracle_factor(&fs);
-            let phys = if of.is_normal() { v * of } else { f64::NAN };
+            // a value that left the range of f64 in the unit numbat works in (`1e-351 zbps^-9`) is the floating-point
+            // range, not the arithmetic: only trees with powers can get there
+            let out_of_range = (!v.is_normal() || !(want / of).is_normal()) && e.has_big_pow();
+            if out_of_range && emit { out.count("oracle_value_skipped_range"); }
+            let phys = if of.is_normal() && !out_of_range { v * of } else { f64::NAN };
             if want.is_finite() && phys.is_finite() && want.abs() < 1e280 && (want == 0.0 || want.abs() > 1e-280) && err.is_finite() {
                 if emit { out.count("oracle_value_checked"); }
                 let tol = 64.0 * err + 64.0 * f64::EPSILON * want.abs() + 1e-300;
@@ -363,7 +377,8 @@ fn run_expr_inner(g: &Gen, out: &mut Out, e: &E, from_text: Option<&str>, emit: 
                         if emit { out.count("displayed_result_checked"); }
                         let got_dim = units.oracle_dimension(&fs);
                         let of = units.oracle_factor(&fs);
-                        let phys = if of.is_normal() { v * of } else { f64::NAN };
+                        let out_of_range = (!v.is_normal() || !(want / of).is_normal()) && e.has_big_pow();
+                        let phys = if of.is_normal() && !out_of_range { v * of } else { f64::NAN };
                         if got_dim != dim && v != 0.0 {
                             complaint = Some(format!("displayed result {} has dimension {:?}, dimensional analysis gives {:?}", shown, got_dim, dim));
                         } else if want.is_finite() && phys.is_finite() && want.abs() < 1e280 && (want == 0.0 || want.abs() > 1e-280) && err.is_finite() {
